@@ -76,17 +76,22 @@ def init_ref(cfg):
         "trend": "lin" if cfg["variant"] == "Detrended" else "none",
         "norm": "none",
         "seed": "s1",
+        "geom": 0,
         "tpos": None,  # ("A"|"B"|"G"|"mut<k>", mesh)
         "shift": 0.0,
     }
+
+
+GEOMS = {0: ([0.8, 0.9], [0.3, 0.1, -0.2]), 1: ([0.5, 1.3], [1.1, -0.4, 0.6]), 2: ([1.0, 1.0], [0.0, 0.0, 0.0])}
 
 
 def make_model(ref):
     C = getattr(gs, ref["cls"])
     kw = dict(dim=ref["dim"], var=ref["var"], len_scale=ref["len_scale"], nugget=ref["nugget"])
     if ref["dim"] > 1:
-        kw["anis"] = [0.8, 0.9][: ref["dim"] - 1]
-        kw["angles"] = [0.3, 0.1, -0.2][: ref["dim"] * (ref["dim"] - 1) // 2]
+        g = GEOMS[ref.get("geom", 0)]
+        kw["anis"] = g[0][: ref["dim"] - 1]
+        kw["angles"] = g[1][: ref["dim"] * (ref["dim"] - 1) // 2]
     return C(**kw)
 
 
@@ -136,7 +141,7 @@ def apply_op(csrf, ref, op, cfg, env):
         if op.get("seed"):
             kw["seed"] = SEEDS[op["seed"]]
             ref["seed"] = op["seed"]
-        if op.get("store"):
+        if op.get("store") is not None:
             kw["store"] = op["store"]
         if op["pos"] is None:
             if ref["tpos"] is None:
@@ -166,6 +171,14 @@ def apply_op(csrf, ref, op, cfg, env):
         ref["cpos"] = 1 - ref["cpos"]
         cp, cv = cond_of(cfg, ref)
         kr.set_condition(cp, cv)
+    elif k == "model_geom":
+        if cfg["dim"] == 1:
+            return "SKIP"
+        ref["geom"] = op["v"]
+        g = GEOMS[op["v"]]
+        csrf.model.anis = g[0][: cfg["dim"] - 1]
+        csrf.model.angles = g[1][: cfg["dim"] * (cfg["dim"] - 1) // 2]
+        kr.set_condition()  # the documented refresh
     elif k == "model_attr":
         setattr(csrf.model, op["attr"], getattr(csrf.model, op["attr"]) * op["f"])
         ref[op["attr"]] = ref[op["attr"]] * op["f"]
@@ -210,6 +223,9 @@ def case_hist(case):
     csrf = make_csrf(cfg, ref)
     env = {}
     out = None
+    # non-initial start: the object has already generated a field (stored kriging results exist)
+    for op in cfg.get("warm", []):
+        apply_op(csrf, ref, op, cfg, env)
     for op in hist:
         out = apply_op(csrf, ref, op, cfg, env)
         if isinstance(out, str):
@@ -221,6 +237,13 @@ def case_hist(case):
     extra = {"variant": cfg["variant"], "cls": cfg["cls"], "prev": hist[-2]["k"] if len(hist) > 1 else "init", "lastpos": str(op["pos"])}
     pos, mesh = tpos_value(cfg, ref)
     names = op.get("store") or ["field", "raw_field", "raw_krige"]
+    if op.get("store") is False:
+        # nothing is stored by this call: only the returned field can be judged
+        if ref["nugget"] == 0:
+            fresh = make_csrf(cfg, ref)
+            fo = np.array(fresh(pos, seed=SEEDS[ref["seed"]], mesh_type=mesh), dtype=float)
+            r.close("conditioned field == freshly built object", out, fo, rtol=1e-8, atol=1e-8, **extra)
+        return r.done(outcome=key, sub={"calls_judged": 1})
     sill = ref["var"] + ref["nugget"]
     # (i) differential oracle: freshly built objects from the reference state
     fresh = make_csrf(cfg, ref)
@@ -285,6 +308,9 @@ def ops_for(cfg, tier="quick"):
     A({"k": "model_attr", "attr": "len_scale", "f": 1.5})
     A({"k": "model_attr", "attr": "var", "f": 3.0})
     A({"k": "model_assign", "len_scale": 3.5})
+    A({"k": "model_geom", "v": 1})
+    A({"k": "model_geom", "v": 2})
+    A({"k": "call", "pos": None, "seed": "s2", "store": False})
     v = cfg["variant"]
     if v == "Simple":
         A({"k": "mean", "v": "c2"})
@@ -305,6 +331,10 @@ def configs(tier):
         {"variant": "Detrended", "cls": "Gaussian", "dim": 1, "nugget": 0.0},
         {"variant": "Simple", "cls": "Gaussian", "dim": 2, "nugget": 0.2},
         {"variant": "Ordinary", "cls": "Exponential", "dim": 1, "nugget": 0.2},
+    ]
+    c += [
+        {"variant": "Simple", "cls": "Exponential", "dim": 1, "nugget": 0.0, "warm": [{"k": "call", "pos": "A", "seed": "s1"}]},
+        {"variant": "Ordinary", "cls": "Gaussian", "dim": 2, "nugget": 0.0, "warm": [{"k": "call", "pos": "B", "seed": "s2"}]},
     ]
     if tier != "quick":
         c += [
